@@ -26,11 +26,20 @@ inductive FieldTy where
   | rep (alts : List (Nat × List Prim))
   deriving DecidableEq, Repr
 
+/-- what a field MEANS: on the application side the (normalised) name of the entity whose id / pid / attribute is
+packed, on the checker side the (normalised) name of the member the unpacked value ends in (props/C43/gen.py).
+`rep alts`: per member kind, the roles of the member's fields. -/
+inductive FieldRole where
+  | prim (r : String)
+  | rep (alts : List (Nat × List String))
+  deriving DecidableEq, Repr
+
 structure Entry where
   observer : String
   kind : Nat
   dies : Bool
   app : List FieldTy
+  roles : List FieldRole := []
   deriving Repr
 
 inductive PVal where
@@ -197,6 +206,46 @@ def fieldCompatible : FieldTy → FieldTy → Bool
 def compatible : List FieldTy → List FieldTy → Bool
   | [], [] => true
   | f :: fs, g :: gs => fieldCompatible f g && compatible fs gs
+  | _, _ => false
+
+/-! ### roles: same types are not enough, the n-th value must also MEAN the same thing on both sides -/
+
+/-- the only declared wildcard: the application packs a literal constant (it gives the field no meaning) -/
+def constRole : String := "_const"
+
+def roleOk (a c : String) : Bool := a == c || a == constRole
+
+def rolesOk : List String → List String → Bool
+  | [], [] => true
+  | a :: as, c :: cs => roleOk a c && rolesOk as cs
+  | _, _ => false
+
+def lookupR (k : Nat) : List (Nat × List String) → Option (List String)
+  | [] => none
+  | (k', rs) :: rest => if k = k' then some rs else lookupR k rest
+
+/-- every member kind the application may send is known to the checker with the same roles, position by position -/
+def altRolesSubset (a c : List (Nat × List String)) : Bool :=
+  a.all (fun (k, rs) => match lookupR k c with
+    | some cs => rolesOk rs cs
+    | none => false)
+
+def fieldRoleCompatible : FieldRole → FieldRole → Bool
+  | .prim a, .prim c => roleOk a c
+  | .rep a, .rep c => altRolesSubset a c
+  | _, _ => false
+
+def rolesCompatible : List FieldRole → List FieldRole → Bool
+  | [], [] => true
+  | f :: fs, g :: gs => fieldRoleCompatible f g && rolesCompatible fs gs
+  | _, _ => false
+
+/-- the roles describe the schema they are attached to: one role per field, member lists on member lists -/
+def rolesShape : List FieldTy → List FieldRole → Bool
+  | [], [] => true
+  | .prim _ :: fs, .prim _ :: rs => rolesShape fs rs
+  | .rep a :: fs, .rep r :: rs =>
+    (a.length == r.length && (a.zip r).all (fun (x, y) => x.1 == y.1 && x.2.length == y.2.length)) && rolesShape fs rs
   | _, _ => false
 
 /-- same byte layout (what decides "completes or hangs"), ignoring signedness -/
